@@ -47,6 +47,7 @@ type Prog struct {
 	Clocks        []int `json:"clocks,omitempty"`        // initial clock time per replica (LogOptions.Clock)
 	Conc          []int `json:"conc,omitempty"`          // LogOptions.Concurrency per replica (0 = default)
 	Preload       []int `json:"preload,omitempty"`       // per replica: starts with the first n entries of one long shared history (large logs)
+	Wide          []int `json:"wide,omitempty"`          // per replica: starts holding that many independent short histories (as many heads)
 	ReplicaOrders []int `json:"replicaOrders,omitempty"` // SortFn of replica i when it differs from the world's (-1 / absent: the world's ordering)
 	ClockIDs      []int `json:"clockIds,omitempty"`      // id carried by the LogOptions.Clock of a replica with an initial clock: 0 its own key, 1 another writer's key, 2 empty
 }
@@ -122,6 +123,7 @@ type GenConfig struct {
 	WithPartial bool // include "loadtail": the replica restarts from a length-limited load (its log is then not causally closed)
 	WithLoad    bool // include "load": the replica restarts from the store (manifest / JSON heads / head entries)
 	AppendBias  int  // extra weight for appends
+	WideOneIn   int  // > 0: about one program in that many starts every replica with 21-40 independent short histories (many heads)
 	LargeOneIn  int  // > 0: about one program in that many starts every replica from a prefix of one long shared history (> 1000 entries)
 }
 
@@ -156,6 +158,11 @@ func Gen(t *rapid.T, cfg GenConfig) Prog {
 	if cfg.LargeOneIn > 0 && rapid.IntRange(0, cfg.LargeOneIn-1).Draw(t, "large") == cfg.LargeOneIn*2/3 { // (rapid favours small values: a value from the middle has about the nominal frequency)
 		for i := 0; i < n; i++ {
 			p.Preload = append(p.Preload, rapid.SampledFrom([]int{1030, 1100, 1100, 1290}).Draw(t, "preload"))
+		}
+	}
+	if cfg.WideOneIn > 0 && len(p.Preload) == 0 && rapid.IntRange(0, cfg.WideOneIn-1).Draw(t, "wide") == cfg.WideOneIn*2/3 {
+		for i := 0; i < n; i++ {
+			p.Wide = append(p.Wide, rapid.SampledFrom([]int{21, 24, 30, 40}).Draw(t, "wideN"))
 		}
 	}
 	p.Order = rapid.SampledFrom(cfg.Orders).Draw(t, "order")
@@ -261,6 +268,23 @@ func New(tb ev.TB, p *Prog) *World {
 			}
 			lo.Entries = entry.NewOrderedMapFromEntries(es)
 			lo.Heads = es[len(es)-1:] // with the heads given the log's clock starts at their time, as for a log that grew by appends
+		}
+		if i < len(p.Wide) && p.Wide[i] > 0 && lo.Entries == nil {
+			chains, raws := world.WideForest(world.Codec(p.Codec), LogID, p.Wide[i])
+			var es, tips []iface.IPFSLogEntry
+			for ci, chain := range chains {
+				tips = append(tips, chain[len(chain)-1])
+				for k, e := range chain {
+					if !w.Reg.Has(e.GetHash().String()) {
+						w.Reg.Record(e)
+						w.Store.PutRaw(e.GetHash(), raws[ci][k])
+					}
+					model.Add(e.GetHash().String())
+					es = append(es, e)
+				}
+			}
+			lo.Entries = entry.NewOrderedMapFromEntries(es)
+			lo.Heads = tips // with the heads given the log's clock starts at their largest time
 		}
 		order := w.Order
 		if i < len(p.ReplicaOrders) && p.ReplicaOrders[i] >= 0 {
